@@ -100,6 +100,9 @@ func runSolver(ctx context.Context, s solverSpec, file string, timeoutS int) sol
 	case "sat", "unsat":
 		ans = first
 	}
+	if strings.Contains(txt, "(error ") && !strings.Contains(strings.SplitN(txt, "\n", 2)[0], "sat") {
+		ans = "error"
+	}
 	return solveResult{ans: ans, out: txt, solver: s.name, ms: ms}
 }
 
@@ -118,6 +121,10 @@ func decide(o *Obligation, dir string, id int, timeoutS int, confirm bool) {
 		quick = 4
 	}
 	r := runSolver(context.Background(), solvers[0], file, quick)
+	if r.ans == "error" {
+		o.Status, o.Solver, o.Output = "solver-error", r.solver, firstLines(r.out, 20)
+		return
+	}
 	if r.ans == "unknown" {
 		// race all three with the full timeout
 		ctx, cancel := context.WithCancel(context.Background())
@@ -130,7 +137,7 @@ func decide(o *Obligation, dir string, id int, timeoutS int, confirm bool) {
 		for got < len(solvers) {
 			rr := <-ch
 			got++
-			if rr.ans != "unknown" {
+			if rr.ans == "sat" || rr.ans == "unsat" {
 				r = rr
 				break
 			}
@@ -141,6 +148,10 @@ func decide(o *Obligation, dir string, id int, timeoutS int, confirm bool) {
 		cancel()
 	}
 	o.Solver, o.Ms, o.Output = r.solver, r.ms, firstLines(r.out, 400)
+	if keep := os.Getenv("GVC_KEEP_SMT"); keep != "" && r.ans != want {
+		os.MkdirAll(keep, 0o755)
+		os.WriteFile(filepath.Join(keep, fmt.Sprintf("%s-p%d.smt2", sanitize(o.Name), o.Path)), []byte(o.smt(true)+"; "+strings.ReplaceAll(r.out, "\n", "\n; ")), 0o644)
+	}
 	switch r.ans {
 	case want:
 		if o.WantSat {
